@@ -4,18 +4,24 @@ import json, os
 V = os.path.dirname(os.path.dirname(os.path.abspath(__file__)))
 # name, SIG macro, input fn, has_output, extra state (C statements using `upipe`)[, source file stem, extra defines]
 PIPES = [
- ('skip', 'UPIPE_SKIP_SIGNATURE', 'upipe_skip_input', 1, 'VIN(size_t, opt_offset); upipe_skip_from_upipe(upipe)->offset = opt_offset;'),
+ ('skip', 'UPIPE_SKIP_SIGNATURE', 'upipe_skip_input', 1, 'VIN(size_t, opt_offset); upipe_skip_from_upipe(upipe)->offset = opt_offset; g_opt_offset = opt_offset; g_rsz_calls = 0;', 'skip',
+  '/* skip: the payload loses exactly the configured number of leading octets — one uref_block_resize(offset, -1) on the buffer (the block operation is under contract in C03), nothing else changes */\nstatic size_t g_opt_offset;\n#define VP_CONTENT_OK(in, out, up) (spec_same_uref(in, out, 0, 0) && g_rsz_calls == 1 && g_rsz_uref == g_in_uref && g_rsz_skip == (int)g_opt_offset && g_rsz_size == -1)',
+  '#include <upipe/uref_block.h>\n#include "vstub_choice.h"\nstatic int g_rsz_calls, g_rsz_skip, g_rsz_size; static struct uref *g_rsz_uref;\nstatic int stub_uref_block_resize(struct uref *u, int skip, int new_size) { g_rsz_calls++; g_rsz_uref = u; g_rsz_skip = skip; g_rsz_size = new_size; return VS_CHOICE(resize_ret) & 1 ? UBASE_ERR_NONE : UBASE_ERR_INVALID; }\n#define uref_block_resize stub_uref_block_resize'),
  ('idem', 'UPIPE_IDEM_SIGNATURE', 'upipe_idem_output', 1, ''),
  ('null', 'UPIPE_NULL_SIGNATURE', 'upipe_null_input', 0, 'VIN(uint8_t, opt_dump); upipe_null_from_upipe(upipe)->dump = (opt_dump & 1) != 0;'),
  ('htons', 'UPIPE_HTONS_SIGNATURE', 'upipe_htons_input', 1, ''),
  ('probe_uref', 'UPIPE_PROBE_UREF_SIGNATURE', 'upipe_probe_uref_input', 1, ''),
- ('delay', 'UPIPE_DELAY_SIGNATURE', 'upipe_delay_input', 1, 'VIN(int64_t, opt_delay); upipe_delay_from_upipe(upipe)->delay = opt_delay;'),
+ ('delay', 'UPIPE_DELAY_SIGNATURE', 'upipe_delay_input', 1, 'VIN(int64_t, opt_delay); upipe_delay_from_upipe(upipe)->delay = opt_delay; g_opt_delay = opt_delay;', 'delay',
+  '/* delay: the buffer that goes out is the one that came in after uref_clock_add_date_{sys,prog,orig}(delay) — nothing else changes */\nstatic int64_t g_opt_delay;\nstatic inline bool spec_delay(const struct uref *in, const struct uref *out)\n{\n    struct uref e = *in;\n    if (g_opt_delay) { uref_clock_add_date_sys(&e, g_opt_delay); uref_clock_add_date_prog(&e, g_opt_delay); uref_clock_add_date_orig(&e, g_opt_delay); }\n    return spec_same_uref(&e, out, 0, 0);\n}\n#define VP_CONTENT_OK(in, out, up) spec_delay(in, out)'),
  ('setattr', 'UPIPE_SETATTR_SIGNATURE', 'upipe_setattr_input', 1, '', 'setattr', '#define VP_DICT_OPT\n#define VP_DICT_FIELD(up) upipe_setattr_from_upipe(up)->dict\n#define VP_DICT_SET(up, d) _upipe_setattr_set_dict(up, d)\n#define VP_DICT_GET(up, p) _upipe_setattr_get_dict(up, p)'),
  ('setflowdef', 'UPIPE_SETFLOWDEF_SIGNATURE', 'upipe_setflowdef_input', 1, '', 'setflowdef', '#define VP_DICT_OPT\n#define VP_DICT_FIELD(up) upipe_setflowdef_from_upipe(up)->dict\n#define VP_DICT_SET(up, d) _upipe_setflowdef_set_dict(up, d)\n#define VP_DICT_GET(up, p) _upipe_setflowdef_get_dict(up, p)'),
  ('match_attr', 'UPIPE_MATCH_ATTR_SIGNATURE', 'upipe_match_attr_input', 1, ''),
- ('noclock', 'UPIPE_NOCLOCK_SIGNATURE', 'upipe_noclock_input', 1, ''),
- ('nodemux', 'UPIPE_NODEMUX_SIGNATURE', 'upipe_nodemux_input', 1, ''),
- ('setrap', 'UPIPE_SETRAP_SIGNATURE', 'upipe_setrap_input', 1, 'VIN(uint64_t, opt_rap); upipe_setrap_from_upipe(upipe)->rap_sys = opt_rap;'),
+ ('noclock', 'UPIPE_NOCLOCK_SIGNATURE', 'upipe_noclock_input', 1, '', 'noclock',
+  '/* noclock: the system date becomes the program date (uref_clock_set_date_sys with the program date and type: C11 accessor), nothing else changes */\nstatic inline bool spec_noclock(const struct uref *in, const struct uref *out)\n{\n    struct uref e = *in; int type; uint64_t date;\n    uref_clock_get_date_prog(&e, &date, &type); uref_clock_set_date_sys(&e, date, type);\n    return spec_same_uref(&e, out, 0, 0);\n}\n#define VP_CONTENT_OK(in, out, up) spec_noclock(in, out)'),
+ ('nodemux', 'UPIPE_NODEMUX_SIGNATURE', 'upipe_nodemux_input', 1, 'VIN(uint8_t, opt_inited); upipe_nodemux_from_upipe(upipe)->inited = (opt_inited & 1) != 0; g_opt_inited = (opt_inited & 1) != 0;', 'nodemux',
+  '/* nodemux: the first buffer gets uref_clock_set_dts_prog(NODEMUX_CLOCK_MIN), later ones pass unchanged */\nstatic bool g_opt_inited;\nstatic inline bool spec_nodemux(const struct uref *in, const struct uref *out)\n{\n    struct uref e = *in;\n    if (!g_opt_inited) uref_clock_set_dts_prog(&e, NODEMUX_CLOCK_MIN);\n    return spec_same_uref(&e, out, 0, 0);\n}\n#define VP_CONTENT_OK(in, out, up) spec_nodemux(in, out)'),
+ ('setrap', 'UPIPE_SETRAP_SIGNATURE', 'upipe_setrap_input', 1, 'VIN(uint64_t, opt_rap); upipe_setrap_from_upipe(upipe)->rap_sys = opt_rap; g_opt_rap = opt_rap;', 'setrap',
+  '/* setrap: uref_clock_set_rap_sys(rap) when a RAP is configured (refused when it is after the clock reference), nothing else */\nstatic uint64_t g_opt_rap;\nstatic inline bool spec_setrap(const struct uref *in, const struct uref *out)\n{\n    struct uref e = *in;\n    if (g_opt_rap != UINT64_MAX) uref_clock_set_rap_sys(&e, g_opt_rap);\n    return spec_same_uref(&e, out, 0, 0);\n}\n#define VP_CONTENT_OK(in, out, up) spec_setrap(in, out)'),
  ('multicat_probe', 'UPIPE_MULTICAT_PROBE_SIGNATURE', 'upipe_multicat_probe_input', 1, 'VIN(uint64_t, opt_rot); VIN(uint64_t, opt_roff); VIN(uint64_t, opt_idx); VASSUME(opt_rot >= 1); upipe_multicat_probe_from_upipe(upipe)->rotate = opt_rot; upipe_multicat_probe_from_upipe(upipe)->rotate_offset = opt_roff; upipe_multicat_probe_from_upipe(upipe)->idx = opt_idx;'),
  ('agg', 'UPIPE_AGG_SIGNATURE', 'upipe_agg_input', 1, 'VIN(uint8_t, has_agg); VIN(size_t, agg_size); VIN(size_t, agg_osize); VIN(size_t, agg_isize); upipe_agg_from_upipe(upipe)->output_size = agg_osize; upipe_agg_from_upipe(upipe)->input_size = agg_isize; if (has_agg & 1) { struct uref *a_ = vs_make_uref(false, 0, 1); VASSUME(a_ != NULL); a_->ubuf = vs_make_ubuf(); VASSUME(a_->ubuf != NULL); upipe_agg_from_upipe(upipe)->aggregated = a_; upipe_agg_from_upipe(upipe)->size = agg_size; g_extra_held = 1; }', 'aggregate', '#define VP_ONE_TO_ONE 0\n#define VP_MAX_HELD 0'),
 ]
@@ -23,10 +29,12 @@ for row in PIPES:
     name, sig, inp, has_out, extra = row[:5]
     stem = row[5] if len(row) > 5 else name
     xdef = row[6] if len(row) > 6 else ''
+    pre = row[7] if len(row) > 7 else ''
     d = os.path.join(V, 'contracts', 'flow_' + name)
     os.makedirs(d, exist_ok=True)
     src = '''/* GENERATED by lib/genpipeflow.py — contract unit: lib/upipe-modules/upipe_%(n)s.c (included whole), template include/vpipeflow.h */
 #include "vpipeflow_pre.h"
+%(pre)s
 #include "lib/upipe-modules/upipe_%(stem)s.c"
 %(xdef)s
 #define VP_STRUCT upipe_%(n)s
@@ -44,7 +52,7 @@ static struct upipe *vp_call_alloc(struct upipe_mgr *mgr, struct uprobe *uprobe,
 #define VP_ALLOC(mgr, probe) vp_call_alloc(mgr, probe, UPIPE_VOID_SIGNATURE)
 #define VP_EXTRA_STATE(upipe) %(extra)s
 #include "vpipeflow.h"
-''' % {'stem': stem, 'xdef': xdef, 'n': name, 'ho': has_out, 'sig': sig, 'inp': inp, 'extra': extra or 'do { } while (0)'}
+''' % {'stem': stem, 'pre': pre, 'xdef': xdef, 'n': name, 'ho': has_out, 'sig': sig, 'inp': inp, 'extra': extra or 'do { } while (0)'}
     open(os.path.join(d, 'contract.c'), 'w').write(src)
     groups = []
     for op in ['alloc', 'input', 'set_flow_def'] + (['set_output'] if has_out else []) + ['release'] + (['opt_dict'] if 'VP_DICT_OPT' in xdef else []):
